@@ -178,6 +178,25 @@ class PredEval:
                     if isinstance(x, ast.Name):
                         locals_.add(x.id)
         self.locals_ = locals_
+        # locals that merely alias an attribute/subscript (`verb = cmd.verb`, `a, b = x.p, x.q`): comparisons on them are
+        # comparisons on the aliased expression, which is what gets enumerated
+        self._alias: dict[str, ast.expr] = {}
+        seen_count: dict[str, int] = {}
+        for n in ast.walk(self.f.node):
+            pairs = []
+            if isinstance(n, ast.Assign) and len(n.targets) == 1:
+                t = n.targets[0]
+                if isinstance(t, ast.Name):
+                    pairs = [(t, n.value)]
+                elif isinstance(t, ast.Tuple) and isinstance(n.value, ast.Tuple) and len(t.elts) == len(n.value.elts):
+                    pairs = [(a, b) for a, b in zip(t.elts, n.value.elts) if isinstance(a, ast.Name)]
+            elif isinstance(n, ast.AnnAssign) and isinstance(n.target, ast.Name) and n.value is not None:
+                pairs = [(n.target, n.value)]
+            for a, b in pairs:
+                seen_count[a.id] = seen_count.get(a.id, 0) + 1
+                if isinstance(b, (ast.Attribute, ast.Subscript)):
+                    self._alias[a.id] = b
+        self._alias = {k: v for k, v in self._alias.items() if seen_count.get(k) == 1}
         for n in ast.walk(self.f.node):
             if isinstance(n, ast.Compare):
                 left = n.left
@@ -192,6 +211,8 @@ class PredEval:
                 continue
             if self._const(subj) is not TOP:
                 continue
+            if isinstance(subj, ast.Name) and subj.id in self._alias:
+                subj = self._alias[subj.id]
             key = norm(subj)
             if isinstance(op, (ast.In, ast.NotIn)) and subj is left and isinstance(const, tuple):
                 vals = self.subjects.setdefault(key, [])
@@ -276,6 +297,16 @@ class PredEval:
                     self._loc[st.targets[0].id] = ("expr", v0)  # an alias of an opaque expression: tests on it are tests on the expression
                 else:
                     self._loc[st.targets[0].id] = self._val(v0)
+            elif isinstance(st, ast.Assign) and len(st.targets) == 1 and isinstance(st.targets[0], ast.Tuple) and isinstance(st.value, ast.Tuple) and len(st.targets[0].elts) == len(st.value.elts) and all(isinstance(t, ast.Name) for t in st.targets[0].elts) and not any(self._is_effect(v) for v in st.value.elts):
+                # a, b = x, y : element-wise (all right-hand sides are evaluated before any name is bound)
+                vals = []
+                for v0 in st.value.elts:
+                    if isinstance(v0, (ast.Attribute, ast.Subscript)) and self._const(v0) is TOP and self._subject_value(v0) is TOP:
+                        vals.append(("expr", v0))
+                    else:
+                        vals.append(self._val(v0))
+                for t, v in zip(st.targets[0].elts, vals):
+                    self._loc[t.id] = v  # type: ignore[attr-defined]
             elif isinstance(st, ast.AnnAssign) and isinstance(st.target, ast.Name) and st.value is not None and not self._is_effect(st.value):
                 v0 = st.value
                 if isinstance(v0, (ast.Attribute, ast.Subscript)) and self._const(v0) is TOP and self._subject_value(v0) is TOP:
